@@ -193,8 +193,18 @@ def supported(cfg, world, t, top=True, _seen=None, roundtrip=True) -> bool:
 
 class Gen:
     def __init__(self, rng: random.Random, max_depth=3, big=False, no_any=False, recursive=True, unions=False, nt=False,
-                 enum_lits=False, coercible=False, hierarchies=False, twin_fields=False, map_targets=False):
+                 enum_lits=False, coercible=False, hierarchies=False, twin_fields=False, map_targets=False,
+                 class_features=False, validators=True):
         self.rng = rng
+        self.validators = validators   # (class features) attrs validators / post-init checks that reject some values
+        # CLASS FEATURES the model does not see (a class is its flat field list) or sees through the harness
+        # (validators): class syntax (`@attrs.define`, `@attr.s(auto_attribs=True)`, `@dataclass` class bodies instead of
+        # make_class / make_dataclass), explicit `alias=` on public and private attributes, `Factory(takes_self=True)`,
+        # eq=False, class-level kw_only=True, slots=True dataclasses, ClassVar / InitVar pseudo-fields, a hand-written
+        # `__init__` (`@define(init=False)`) whose parameters are the aliases in declaration order, attrs validators /
+        # `__attrs_post_init__` / `__post_init__` that reject some values of the declared type.  VERIF_NO_CLASS_FEATURES=1
+        # switches them off.
+        self.class_features = class_features and not os.environ.get("VERIF_NO_CLASS_FEATURES")
         # mapping types with a target class other than dict (OrderedDict[K, V], defaultdict[K, V], Counter[K]) and their
         # values (instances of those classes); VERIF_NO_MAP_TARGETS=1 switches them off
         self.map_targets = map_targets and not os.environ.get("VERIF_NO_MAP_TARGETS")
@@ -450,7 +460,77 @@ class Gen:
             self._twin(w, ci, c)
         if self.hierarchies and kind in ("attrs", "dc"):
             self._inherit(w, ci, c)
+        if self.class_features and kind in ("attrs", "dc"):
+            self._features(w, ci, c)
         return c
+
+    def _features(self, w, ci, c):
+        r = self.rng
+        kind = c["kind"]
+        own = [f for f in c["fields"] if not f.get("inherited")]
+        feats = c["features"] = {}
+        if all(f["ty"] is not None for f in own) and r.random() < 0.5:
+            # class SYNTAX (a class body run through the decorator) -- needs every attribute annotated
+            feats["syntax"] = r.choice(["define", "attr.s"]) if kind == "attrs" else "dataclass"
+        if r.random() < 0.15:
+            feats["eq"] = False
+        if feats.get("syntax") and c.get("base") is None and own and r.random() < 0.15:
+            feats["kw_only_cls"] = True
+            for f in own:
+                f["kw_only"] = True
+        if kind == "dc" and feats.get("syntax"):
+            if r.random() < 0.3:
+                feats["dc_slots"] = True
+            if r.random() < 0.3:
+                feats["classvars"] = [("CV%d" % i, self.any_leaf(with_none=False)) for i in range(r.randint(1, 2))]
+            if r.random() < 0.25:
+                feats["initvars"] = [("iv%d" % i, ("i", r.randint(0, 5))) for i in range(r.randint(1, 2))]
+        if kind == "attrs":
+            for f in own:
+                if f.get("bare_final"):
+                    continue
+                if r.random() < 0.2:
+                    # explicit alias: on a public attribute, or replacing the derived alias of a private one
+                    f["alias"] = r.choice(["al_", "x_", "A"]) + f["name"].lstrip("_")
+                    f["explicit_alias"] = True
+                if f["dflt"] is not None and f["dflt"][0] == "fac" and r.random() < 0.3:
+                    f["takes_self"] = True
+            als = [f["alias"] for f in c["fields"]]
+            if len(set(als)) != len(als):
+                for f in own:
+                    if f.pop("explicit_alias", None):
+                        f["alias"] = f["name"].lstrip("_")
+            if feats.get("syntax") == "define" and c.get("base") is None and not c["frozen"] and r.random() < 0.2 \
+                    and not any(k.get("base") == ci for k in w["classes"]):
+                feats["custom_init"] = True
+        # validators: reject some values OF the declared type (the defaults pass by construction)
+        if self.validators and c["recursive"] is None and r.random() < 0.45:
+            cands = [f for f in own if validator_kind(f["ty"]) and not f.get("bare_final") and not f.get("idconv")]
+            r.shuffle(cands)
+            for f in cands[: r.randint(1, 2)]:
+                vk = validator_kind(f["ty"])
+                f["validator"] = vk
+                if kind == "dc" or r.random() < 0.3:
+                    f["validator_in"] = "post_init"      # checked by __attrs_post_init__ / __post_init__
+                if f["dflt"] is not None and not passes(vk, f["dflt"][1]):
+                    # the default has to pass too (attrs validates it in __init__)
+                    for _ in range(20):
+                        v = self.value(w, f["ty"], 2, any_stable=True)
+                        if passes(vk, v):
+                            leaf = v[0] in ("N", "b", "i", "f", "s", "y", "e")
+                            f["dflt"] = ("c", v) if (leaf and f["dflt"][0] == "c") else ("fac", v)
+                            break
+                    else:
+                        f.pop("validator", None)
+                        f.pop("validator_in", None)
+        # a post-init check is a METHOD: it needs the class-body spelling
+        if any(f.get("validator_in") == "post_init" for f in c["fields"]) and not feats.get("syntax"):
+            if all(f["ty"] is not None for f in own):
+                feats["syntax"] = "define" if kind == "attrs" else "dataclass"
+            else:
+                for f in own:
+                    if f.pop("validator_in", None) and kind == "dc":
+                        f.pop("validator", None)
 
     def _twin(self, w, ci, c):
         """two attributes of one type, exactly one of them with an attrs converter"""
@@ -478,7 +558,9 @@ class Gen:
         if r.random() < 0.3:
             c["strann"] = True
         bases = [j for j in range(ci) if w["classes"][j]["kind"] == c["kind"] and w["classes"][j].get("recursive") is None
-                 and not any(f.get("bare_final") for f in w["classes"][j]["fields"])]
+                 and not any(f.get("bare_final") for f in w["classes"][j]["fields"])
+                 and not (w["classes"][j].get("features") or {}).get("custom_init")
+                 and not (w["classes"][j].get("features") or {}).get("initvars")]
         if not bases or r.random() >= 0.35:
             return
         bi = r.choice(bases)
@@ -673,7 +755,15 @@ class Gen:
                 elif f["ty"] is None:
                     fs.append((f["name"], self.any_value(w, depth - 1, any_stable)))
                 else:
-                    fs.append((f["name"], self.value(w, f["ty"], depth - 1, any_stable)))
+                    v = self.value(w, f["ty"], depth - 1, any_stable)
+                    if f.get("validator"):
+                        for _ in range(30):       # a value the attribute's validator accepts
+                            if passes(f["validator"], v):
+                                break
+                            v = self.value(w, f["ty"], max(depth - 1, 1), any_stable)
+                        else:
+                            v = f["dflt"][1] if f["dflt"] is not None else VALIDATOR_SAFE[f["validator"]]
+                    fs.append((f["name"], v))
             return ("I", t[1], fs)
         if k == "union":
             if t[2] and r.random() < 0.25:
@@ -833,6 +923,57 @@ class Gen:
             return self.junk(w, 1)
 
         return self._edit(o, path, fn)
+
+
+# ---------------------------------------------------------------- validators (class features)
+# kinds: 'mod3' (an int attribute rejects multiples of 3), 'noz' (a str attribute rejects strings starting with 'z'),
+# 'len2' (a list / sequence attribute rejects containers of length 2)
+VALIDATOR_SAFE = {"mod3": ("i", 1), "noz": ("s", "b"), "len2": ("l", [])}
+
+
+def validator_kind(t):
+    t = strip_wraps(t) if t is not None else None
+    if t == "int":
+        return "mod3"
+    if t == "str":
+        return "noz"
+    if t is not None and not isinstance(t, str) and t[0] in ("list", "seq", "mseq"):
+        return "len2"
+    return None
+
+
+def passes(vk, v) -> bool:
+    """does the abstract value pass the validator? (values of other classes pass: the validators test their own class)"""
+    if vk == "mod3":
+        return not (v[0] == "i" and v[1] % 3 == 0)
+    if vk == "noz":
+        return not (v[0] == "s" and v[1].startswith("z"))
+    if vk == "len2":
+        return not (v[0] in ("l", "t", "q") and len(v[1]) == 2)
+    return True
+
+
+def validators_ok(world, o) -> bool:
+    """no instance inside the abstract object holds a value its attribute's validator rejects (what attrs `__init__` /
+    `__attrs_post_init__` / `__post_init__` would raise on)"""
+    t = o[0]
+    if t in ("l", "t", "q", "S", "F"):
+        return all(validators_ok(world, x) for x in o[1])
+    if t == "d":
+        return all(validators_ok(world, k) and validators_ok(world, v) for k, v in o[1])
+    if t == "D":
+        return all(validators_ok(world, k) and validators_ok(world, v) for k, v in o[2])
+    if t == "I":
+        for f, (_, v) in zip(world["classes"][o[1]]["fields"], o[2]):
+            if f.get("validator") and not passes(f["validator"], v):
+                return False
+            if not validators_ok(world, v):
+                return False
+    return True
+
+
+def has_validators(world) -> bool:
+    return any(f.get("validator") for c in world["classes"] for f in c["fields"])
 
 
 def factory_type(t) -> bool:
